@@ -789,14 +789,13 @@ impl ZoneMapIndexBuilder {
                 let next_fragment_index = (array_offset..row_addrs_array.len()).find(|&i| {
                     let row_addr = row_addrs_array.value(i);
                     let fragment_id = row_addr >> 32;
-                    fragment_id == self.cur_fragment_id + 1
+                    fragment_id != self.cur_fragment_id
                 });
                 let empty_rows_left_in_cur_zone: usize =
                     (self.options.rows_per_zone - self.cur_zone_offset as u64) as usize;
 
                 // Check if there is enough data from the current fragment to fill the current zone
                 let desired = if let Some(idx) = next_fragment_index {
-                    self.cur_fragment_id = row_addrs_array.value(idx) >> 32;
                     // Take the minimum between distance to boundary and space left in zone
                     // to ensure we don't exceed the zone size limit
                     std::cmp::min(idx - array_offset, empty_rows_left_in_cur_zone)
@@ -815,10 +814,11 @@ impl ZoneMapIndexBuilder {
                     self.cur_zone_offset += desired;
                     self.new_map(row_addrs_array.value(array_offset) >> 32)?;
                 } else if desired == 0 {
-                    // The new batch starts with a new fragment. Flush the current zone if it's not empty
+                    // The remaining rows start with a new fragment. Flush the current zone if it's not empty
                     if self.cur_zone_offset > 0 {
-                        self.new_map(self.cur_fragment_id - 1)?;
+                        self.new_map(self.cur_fragment_id)?;
                     }
+                    self.cur_fragment_id = row_addrs_array.value(array_offset) >> 32;
                     // Let the loop run again
                     // to find the next fragment boundary
                     continue;
